@@ -3720,6 +3720,9 @@ impl Lexer<'_> {
         // What are we comparing the ending against
         let (ending, ending_len) = if is_datalines4 { (";;;;", 4) } else { (";", 1) };
 
+        // Set if the input ends before the terminator is found
+        let mut unterminated = false;
+
         loop {
             match self.cursor.peek() {
                 Some('\n') => {
@@ -3731,8 +3734,17 @@ impl Lexer<'_> {
 
                     if rem_text.len() < ending_len {
                         // Not enough characters left to match the ending
-                        // Emit error, but assume that we found the ending
+                        // Emit error and treat whatever is left as data. The
+                        // terminator token will be virtual (empty)
                         self.emit_error(ErrorKind::UnterminatedDatalines);
+
+                        while let Some(c) = self.cursor.advance() {
+                            if c == '\n' {
+                                self.add_line();
+                            }
+                        }
+
+                        unterminated = true;
                         break;
                     }
 
@@ -3759,9 +3771,11 @@ impl Lexer<'_> {
         // Start the new token
         self.start_token();
 
-        // Consume the ending
-        #[allow(clippy::cast_possible_truncation)]
-        self.cursor.advance_by(ending_len as u32);
+        // Consume the ending, unless we ran out of input before finding it
+        if !unterminated {
+            #[allow(clippy::cast_possible_truncation)]
+            self.cursor.advance_by(ending_len as u32);
+        }
 
         // Add the datalines end token
         self.emit_token(TokenChannel::DEFAULT, TokenType::SEMI, Payload::None);
